@@ -813,7 +813,7 @@ package raft
 //@   requires nonnil: r != nil && r.logs != nil && r.logger != nil && typeis(r.conf.v, Config)
 //@   requires fresh_start: r.commitIndex == 0
 //@   requires index_range: r.logs.last < MaxInt63
-//@   modifies r.commitIndex, r.lastApplied, sent(r.fsmMutateCh), allof("H.logFuture."), allof("CH.sent.error"), allof("CH.last.error"), allof("CH.closed"), allof("CH.sent.interface"), allof("CH.last.interface")
+//@   modifies r.commitIndex, r.lastApplied, sent(r.fsmMutateCh), allof("H.logFuture."), allof("CH.sent.error"), allof("CH.last.error"), allof("CH.closed"), allof("CH.sent.interface"), allof("CH.last.interface"), received(r.shutdownCh)
 //@   ensures  disabled_is_noop: !r.RestoreCommittedLogs ==> result == nil && r.commitIndex == old(r.commitIndex) && r.lastApplied == old(r.lastApplied)
 //@   ensures  commit_is_min: result == nil && r.RestoreCommittedLogs ==> r.commitIndex == min(stagedCommit(r), r.logs.last)
 //@   ensures  applied_up_to_commit: result == nil && r.RestoreCommittedLogs ==> r.lastApplied == max(old(r.lastApplied), r.commitIndex)
@@ -1136,3 +1136,27 @@ package raft
 //@   ensures  own_leadership_no_longer_advertised: !(r.leaderAddr == r.localAddr && r.leaderID == r.localID) || (r.localAddr == "" && r.localID == "")
 //@   at call (*deferError).respond#1 assert inflight_answered_leadership_lost: arg1 == ErrLeadershipLost
 //@   at call (*deferError).respond#2 assert verify_answered_leadership_lost: arg1 == ErrLeadershipLost
+
+// ---------------------------------------------------------------------------
+// C08: the FSM goroutine's batch path (closure applyBatch of runFSM): every future is answered with
+// the response at the position of its own entry among the entries that were sent to the FSM.
+
+//@ spec func sendable(t LogType) bool = t == LogCommand || t == LogConfiguration
+
+//@ func (r *Raft) runFSM$2
+//@   requires wf: forall j int :: 0 <= j && j < len(reqs) ==> reqs[j] != nil && reqs[j].log != nil
+//@   localonly
+//@   loop 2 invariant sent_so_far: len(sendLogs) == count(j, #i, sendable(reqs[j].log.Type))
+//@   loop 3 invariant position: i == count(j, #i, sendable(reqs[j].log.Type))
+//@   at call (*deferError).respond#1 assert current_request: req == reqs[#i]
+//@   at call (*deferError).respond#1 assert position_of_current_request: prev(i) == count(j, #i, sendable(reqs[j].log.Type))
+//@   at call (*deferError).respond#1 assert response_at_position: sendable(req.log.Type) ==> req.future.response == responses[prev(i)]
+//@   at call (*deferError).respond#1 assert response_of_own_entry: sendable(req.log.Type) ==> req.future.response == responses[count(j, #i, sendable(reqs[j].log.Type))]
+//@   at call (*deferError).respond#1 assert no_response_for_unsent_entry: !sendable(req.log.Type) ==> req.future.response == nil
+//@   at call (*deferError).respond#1 assert answered_without_error: arg1 == nil
+
+// the single-entry path: applySingle's deferred answer
+//@ func (r *Raft) runFSM$1$1
+//@   requires wf: req != nil
+//@   localonly
+//@   at call (*deferError).respond#1 assert response_set_before_answer: req.future.response == resp && arg1 == nil
